@@ -26,7 +26,7 @@ func init() {
 				Procs:    16,
 				Rule: "case = history of Add/Pop/Remove/Set/Reorder/Clear/NewWithData with an update callback installed (distinct elements = unique tags, keys with many ties so that equal-priority elements meet), removals chosen both by raw offset and by the reported position of a chosen held element, followed by a drain with positions re-checked after every Pop; " +
 					"plus Set of every length 0..64 in ascending/descending/constant order (placement reports without any swap) and the LRU store's own usage pattern driven through cache.Cache with the key->offset index cross-checked against the heap by the cache hook after every call. " +
-					"very large queues (262143..1.2 M elements: positions of a sample at the peak, removals through them, conservation), and Reorders constructed to take exactly 2^j exchanges for j = 3..17 (queues of 2^(j+2)-1 elements ranked by tree level with two levels exchanged) with every position checked afterwards. After EVERY op: Peek(last reported position) == element for every tracked held element; Add's return == last reported position. distinct = hash of the op list; non-trivial = at least one Remove through a reported position at an interior offset",
+					"very large queues (262143..1.2 M elements: positions of a sample at the peak, removals through them, conservation), and Reorders constructed to take exactly 2^j exchanges for j = 3..17 (queues of 2^(j+2)-1 elements ranked by tree level with two levels exchanged) with every position checked afterwards. After EVERY op: Peek(last reported position) == element for every tracked held element; Add's return == last reported position. The comparison function notes its arguments: only elements that were handed to the queue may be passed to it. distinct = hash of the op list; non-trivial = at least one Remove through a reported position at an interior offset",
 				Required:     []string{"histories", "position_checks", "removes_by_reported_position", "interior_removes", "reorders", "set_placement_sweeps", "lru_consumer_steps", "large_queue_histories", "big_element_histories", "very_large_queues", "power_of_two_exchange_reorders", "histories_with_bound_method_values_or_moved_struct"},
 				Assumptions:  []string{"reports about elements that have already left the queue are ignored (the statement is about held elements)", "elements placed by NewWithData are not tracked (they did not enter through Add or Set)"},
 				CoverPkgs:    []string{"github.com/creachadair/mds/heapq", "github.com/creachadair/mds/cache"},
